@@ -182,6 +182,7 @@ Definition check_rw (c : rw_case) : N :=
                  end in
   let agree_r := match mroot_w, iroot with
                  | Some (Ok r), Some r' => bytes_eqb r r'
+                 | Some Err, Some [] => true
                  | Some OutOfFuel, None => true
                  | None, None => true
                  | _, _ => false
@@ -190,3 +191,17 @@ Definition check_rw (c : rw_case) : N :=
               else match iw with Some _ => iver && match iroot with Some r => bytes_eqb r (mroot' ls) | None => false end
                                | None => false end in
   code (agree_w && agree_r) spec.
+
+(* ---- right-witness reconstruction on arbitrary (also inconsistent) arguments: must terminate without panic ----
+   (node index, append path, right witness, impl result: None = panic or hang, Some [] = nil, Some h = root) *)
+Definition rwx_case : Type := N * list hsh * list hsh * option hsh.
+Definition check_rwx (c : rwx_case) : N :=
+  let '(idx, ap, rw, iroot) := c in
+  let m := root_from_right_witness hempty hbranch idx ap rw in
+  code (match m, iroot with
+        | Ok r, Some r' => bytes_eqb r r'
+        | Err, Some [] => true
+        | OutOfFuel, None => true
+        | _, _ => false
+        end)
+       (match iroot with Some _ => true | None => false end).
